@@ -25,6 +25,7 @@ type provCtx struct {
 	defs map[types.Object][]ast.Expr // every right-hand side assigned to a local
 	tups map[types.Object][]provTuple
 	seen map[types.Object]bool
+	depth int
 }
 
 type provTuple struct {
@@ -130,7 +131,11 @@ func (p *provCtx) src(e ast.Expr) []string {
 			}
 		}
 		if len(p.defs[o]) == 0 && len(p.tups[o]) == 0 {
-			out = append(out, "param:"+o.Name())
+			if via := p.fromCallers(o); via != nil {
+				out = append(out, via...)
+			} else {
+				out = append(out, "param:"+o.Name())
+			}
 		}
 		return out
 	case *ast.CallExpr:
@@ -159,6 +164,51 @@ func (p *provCtx) src(e ast.Expr) []string {
 		return []string{"const:" + tv.Value.ExactString()}
 	}
 	return []string{"expr:" + exprStr(e)}
+}
+
+// fromCallers: o is a parameter of an unexported helper of package server (other than the
+// frozen fetchItem case, which pairOK judges by itself): its provenance is that of the
+// arguments its callers pass.  nil when o is not such a parameter.
+func (p *provCtx) fromCallers(o types.Object) []string {
+	if p.depth >= 3 || ast.IsExported(p.fi.Decl.Name.Name) || p.fi.Key == "server.(*grpcServer).fetchItem" {
+		return nil
+	}
+	idx := -1
+	for i := 0; ; i++ {
+		po := paramObj(p.fi, i)
+		if po == nil {
+			break
+		}
+		if po == o {
+			idx = i
+		}
+	}
+	if idx < 0 {
+		return nil
+	}
+	var out []string
+	found := false
+	for _, g := range p.c.P.FuncsInPkg("/server") {
+		if strings.HasSuffix(p.c.P.Fset.Position(g.Decl.Pos()).Filename, "_test.go") || g == p.fi {
+			continue
+		}
+		var q *provCtx
+		for _, call := range callsIn(g.Decl.Body, true) {
+			if calleeKey(g.Pkg.TypesInfo, call) != p.fi.Key || idx >= len(call.Args) {
+				continue
+			}
+			if q == nil {
+				q = newProvCtx(p.c, g)
+				q.depth = p.depth + 1
+			}
+			found = true
+			out = append(out, q.sources(call.Args[idx])...)
+		}
+	}
+	if !found {
+		return nil
+	}
+	return out
 }
 
 // digestRoot names the digest value a .Hash/.SizeBytes selection reads from.
@@ -192,7 +242,8 @@ func (p *provCtx) hashedBytes(e ast.Expr) string {
 	return ""
 }
 
-// marshalled: the variable named name is (also) assigned from proto.Marshal.
+// marshalled: the variable named name is (also) assigned from proto.Marshal, directly or as a
+// result of a helper of the package that returns such a value.
 func (p *provCtx) marshalled(name string) bool {
 	for o, ts := range p.tups {
 		if o.Name() != name {
@@ -201,6 +252,24 @@ func (p *provCtx) marshalled(name string) bool {
 		for _, t := range ts {
 			if fullCalleeName(p.info, t.call) == "google.golang.org/protobuf/proto.Marshal" {
 				return true
+			}
+			if p.depth < 3 {
+				if g := p.c.P.Func(calleeKey(p.info, t.call)); g != nil && g.Pkg == p.fi.Pkg && g.Decl.Body != nil {
+					q := newProvCtx(p.c, g)
+					q.depth = p.depth + 1
+					hit := false
+					walkNoLits(g.Decl.Body, func(n ast.Node) bool {
+						if ret, ok := n.(*ast.ReturnStmt); ok && t.idx < len(ret.Results) {
+							if id, ok := ast.Unparen(ret.Results[t.idx]).(*ast.Ident); ok && q.marshalled(id.Name) {
+								hit = true
+							}
+						}
+						return true
+					})
+					if hit {
+						return true
+					}
+				}
 			}
 		}
 	}
@@ -473,6 +542,7 @@ func okAfterStore(c *Ctx) {
 				}
 			},
 		})
+		base.InlineOwnHelpers()
 		x := NewExec(c.P.FlowOf(fi), base)
 		x.Run(newSt())
 		R.Check(checks > 0, "R01h", c.Cfg+"server.(*grpcServer).BatchUpdateBlobs:items-checked", "", "per-item statuses were found and checked", "no per-item status construct recognised")
@@ -511,6 +581,7 @@ func okAfterStore(c *Ctx) {
 					"after a failed Cache.Put the handler returns an error", "a path on which Cache.Put failed returns success", x.Trace()...)
 			},
 		})
+		base.InlineOwnHelpers()
 		x := NewExec(c.P.FlowOf(fi), base)
 		x.Run(newSt())
 		R.Check(nput > 0, "R01h", c.Cfg+key+":puts", "", key+" stores through Cache.Put", "no Cache.Put found")
@@ -540,6 +611,7 @@ func okAfterStore(c *Ctx) {
 				}
 			},
 		})
+		base.InlineOwnHelpers()
 		x := NewExec(c.P.FlowOf(fi), base)
 		x.Run(newSt())
 		R.Check(seen > 0, "R01h", c.Cfg+"server.(*httpCache).CacheHandler:put-failure-paths", "", "Put failure paths found", "none found")
